@@ -8,7 +8,9 @@ All randomness comes from the rng passed in; the result is plain data.
 from .fgen import is_literal, join_tokens
 
 COMMENTS = ["! a comment", "!", "! it's here", '! say "x"', "! x = 1 & y", "!$omp parallel do",
-            "!  spaced  out", "! end do", "!dir$ ivdep", "! ; semi", "!$ x = 2"]
+            "!  spaced  out", "! end do", "!dir$ ivdep", "! ; semi", "!$ x = 2",
+            # a page break (form feed) and other Unicode "line boundaries" inside a comment
+            "! page\x0cbreak", "! nel\x85 ls\u2028 vt\x0bx"]
 
 
 def squash(text):
@@ -97,6 +99,10 @@ def _pieces(st, r, max_cuts, allow_literal_cut, allow_token_cut, casemix):
         if is_literal(tok) and allow_literal_cut and len(tok) > 3:
             q = tok[0]
             for pos in range(2, len(tok) - 1):
+                if tok[pos - 1].isspace() or tok[pos].isspace():
+                    # the reader strips white space at the ends of a physical line (blanks,
+                    # and the form feed etc. of the zoo's literals): no cut next to it
+                    continue
                 if tok[pos - 1] != q and tok[pos] != q:
                     cands.append((a + pos, "lit"))
                     cands.append((a + pos, "lit"))  # weight literal cuts up
@@ -372,7 +378,7 @@ def render_fixed(stmts, r, opts=None):
                 # never cut next to a blank (the reader strips every physical line), nor
                 # inside a doubled-quote pair, nor directly at a quote
                 a, b = rest[pos - 1], rest[pos]
-                if a == " " or b == " ":
+                if a.isspace() or b.isspace():
                     continue
                 gpos = offset + pos
                 inside = [s for s in lit_spans if s[0] < gpos <= s[1]]
